@@ -110,6 +110,14 @@ func (g *SymbolGraph) RemoveEdge(from, to graphs.SymbolKey, kind *SymbolEdgeKind
 		if len(inner) == 0 {
 			delete(g.edges, fromBase)
 		}
+
+		// The dependency indices are per node pair, not per edge kind - they must
+		// survive for as long as any edge (of another kind) still links from -> to
+		for _, remaining := range inner {
+			if remaining.Edge.To.BaseId() == toBase {
+				return
+			}
+		}
 	}
 
 	if depsMap, ok := g.deps[fromBase]; ok {
